@@ -497,6 +497,9 @@ func cmdCheck(args []string) int {
 	V.tier = tier
 	c := &checkCtx{V: V, prop: prop, tier: tier, seed: seedFromEnv(), funcs: map[string]bool{}, t0: t0, encCache: map[string]*EncInfo{}}
 	c.cfg = &solveCfg{timeout: 10, seed: c.seed, scratch: scratchDir(), parallel: 14}
+	if tier != "thorough" && os.Getenv("VERIF_NOCACHE") == "" {
+		c.cfg.cacheDir = envOr("VERIF_CACHE", filepath.Join(vdir, ".cache", "smt"))
+	}
 	if tier == "thorough" {
 		c.cfg.timeout = 30
 		c.cfg.useCvc5 = false
@@ -634,6 +637,16 @@ func (c *checkCtx) plan() bool {
 		// services are registered at start-up, and Get's own specification)
 		c.codecTask([]string{"(*Crc16ChecksumService).Calc", "(*Crc32ChecksumService).Calc", "(*SseBinChecksumService).Calc", "(*SzseBinChecksumService).Calc",
 			"(*Crc16ChecksumService).Algorithm", "(*Crc32ChecksumService).Algorithm", "(*SseBinChecksumService).Algorithm", "(*SzseBinChecksumService).Algorithm"}, nil)
+		// ... and every behaviour of every library function: the message layer applies those contracts at its call
+		// sites (all behaviours, as implications, in the safety runs), so a plan that verified only the behaviours its
+		// own statement names would rest on unverified ones. Obligations already generated above are not repeated.
+		if c.prop != "C16" && c.prop != "C20" {
+			c.codecTask(nil, nil)
+			// likewise the schema contract of Encode / Decode that frames, carriers and list codecs apply to their
+			// parts: exactly the format is appended and nothing before it is touched (ok, safe), a successful Decode
+			// consumes at least the fixed bytes and leaves a suffix (decsafe)
+			c.msgTask("ok", "safe", "decsafe")
+		}
 		c.registryInit()
 		n := len(c.obs)
 		c.registryTask()
